@@ -33,6 +33,13 @@ theorem runOps_append_snd (s : Store) (xs ys : List Op) :
   | nil => simp [runOps_nil]
   | cons x xs ih => simp [runOps_cons, ih]
 
+/-- operations change neither the snapshot file nor the sync mode -/
+theorem foldl_op_snap_mode (sy : Sys) (ops : List Op) :
+    (ops.foldl (Sys.op crc enc) sy).snap = sy.snap ∧ (ops.foldl (Sys.op crc enc) sy).mode = sy.mode := by
+  induction ops generalizing sy with
+  | nil => exact ⟨rfl, rfl⟩
+  | cons o ops ih => rw [List.foldl_cons]; exact ih (Sys.op crc enc sy o)
+
 /-- the log file and the memory after a script: syncs add nothing to either -/
 theorem acts_file_mem (sy : Sys) (acts : List Act) :
     (acts.foldl (Sys.act crc enc) sy).wal.file
